@@ -2134,6 +2134,12 @@ func (ip *Interp) indexAddr(act *activation, st *State, t *ssa.IndexAddr) Val {
 		if b.Base.Obj == nil {
 			break
 		}
+		// an index that is certainly not below a known length panics
+		if b.Len != nil {
+			if lc, ok := b.Len.IsConst(); ok && idx64.Lo >= lc && idx64.Lo <= mask(63) {
+				ip.event(Event{Kind: "index-range", Callee: fmt.Sprintf("slice length %d", lc), Args: []Val{idx, &Ptr{Obj: b.Base.Obj, Path: b.Base.Path}}, Instr: t})
+			}
+		}
 		eff := ip.Ops.Add(b.Off, idx64)
 		return &Ptr{Nil: TriF, Obj: b.Base.Obj, Path: appendSel(b.Base.Path, mkSel(eff)), T: elemT}
 	}
